@@ -419,7 +419,7 @@ func (e *Engine) knownCallName(name string) bool {
 	if v, ok := e.callNames[name]; ok {
 		return v
 	}
-	ok := name == "funcvalue" || name == "deferred" || strings.HasPrefix(name, "param:")
+	ok := name == "funcvalue" || name == "deferred" || strings.HasPrefix(name, "param:") || name == "chan.send" || name == "chan.recv" || name == "chan.close" || name == "select" || name == "go" || name == "recover.direct" || name == "recover.indirect"
 	match := func(full string) bool {
 		return full == name || strings.HasSuffix(full, "."+name) || strings.HasSuffix(full, ")."+name)
 	}
